@@ -19,10 +19,12 @@ import (
 	"fmt"
 	"os"
 	"path/filepath"
+	"strings"
 	"sync"
 	"time"
 
 	"github.com/google/pprof/internal/binutils"
+	"github.com/google/pprof/internal/driver"
 	"github.com/google/pprof/internal/zzverif/vlib"
 	"github.com/google/pprof/profile"
 )
@@ -260,6 +262,109 @@ func a2lPart(rounds int) {
 	}
 }
 
+// SharedState.tla (d): registrations of temporary files racing with clean-ups. Every file registered must be gone
+// once a clean-up that started after its registration has returned - here: after a final clean-up with nothing
+// else running. A file that survives was registered but neither kept in the registry nor removed.
+func tempRegistryPart(rounds int) {
+	dir, err := os.MkdirTemp("", "c20-tmpreg-")
+	if err != nil {
+		run.Infra(err.Error())
+		return
+	}
+	defer os.RemoveAll(dir)
+	for r := 0; r < rounds; r++ {
+		mk := func(name string) string {
+			p := filepath.Join(dir, name)
+			if err := os.WriteFile(p, []byte("x"), 0o644); err != nil {
+				run.Infra(err.Error())
+			}
+			return p
+		}
+		// a long registry, so that a clean-up takes a while
+		for i := 0; i < 1500; i++ {
+			driver.VerifDeferDeleteTempFile(mk(fmt.Sprintf("r%d-old%d", r, i)))
+		}
+		var wg sync.WaitGroup
+		stop := make(chan struct{})
+		var late []string
+		wg.Add(1)
+		go func() {
+			defer wg.Done()
+			for i := 0; ; i++ {
+				select {
+				case <-stop:
+					return
+				default:
+				}
+				p := mk(fmt.Sprintf("r%d-late%d", r, i))
+				driver.VerifDeferDeleteTempFile(p)
+				late = append(late, p)
+			}
+		}()
+		for k := 0; k < 3; k++ {
+			driver.VerifCleanupTempFiles()
+		}
+		close(stop)
+		wg.Wait()
+		driver.VerifCleanupTempFiles() // nothing else is running: the registry must be complete
+		run.Count(fmt.Sprintf("tempregistry|%d", r%4))
+		left, _ := filepath.Glob(filepath.Join(dir, fmt.Sprintf("r%d-*", r)))
+		if len(left) > 0 {
+			run.Violate("tempfile", "temp-file-leaked", fmt.Sprintf("round %d: %d of %d files registered while clean-ups were running were never removed (e.g. %s)", r, len(left), len(late), filepath.Base(left[0])), nil, nil)
+			for _, f := range left {
+				os.Remove(f)
+			}
+			return
+		}
+	}
+}
+
+// SharedState.tla (e): the first use of a Binutils value (tool discovery, slow here: the scripted objdump sleeps)
+// overlapping a setter. Once the setter has returned, what it set stays set.
+func lazyInitPart(rounds int) {
+	dir, err := os.MkdirTemp("", "c20-lazy-")
+	if err != nil {
+		run.Infra(err.Error())
+		return
+	}
+	defer os.RemoveAll(dir)
+	os.WriteFile(filepath.Join(dir, "objdump"), []byte("#!/bin/sh\n/bin/sleep 0.06\necho 'GNU objdump (GNU Binutils) 2.40'\n"), 0o755)
+	other := filepath.Join(dir, "other")
+	os.MkdirAll(other, 0o755)
+	os.WriteFile(filepath.Join(other, "nm"), []byte("#!/bin/sh\nexit 0\n"), 0o755)
+	oldPath := os.Getenv("PATH")
+	os.Setenv("PATH", dir)
+	defer os.Setenv("PATH", oldPath)
+	for r := 0; r < rounds; r++ {
+		bu := &binutils.Binutils{}
+		var wg sync.WaitGroup
+		wg.Add(1)
+		go func() {
+			defer wg.Done()
+			_ = bu.String() // first use
+		}()
+		time.Sleep(time.Duration(5+10*(r%3)) * time.Millisecond)
+		what := "fast"
+		if r%2 == 0 {
+			bu.SetFastSymbolization(true)
+		} else {
+			what = "tools"
+			bu.SetTools("nm:" + other)
+		}
+		wg.Wait()
+		got := bu.String()
+		run.Count("lazyinit|" + what + fmt.Sprint(r%3))
+		if what == "fast" && !strings.Contains(got, "fast=true") {
+			run.Violate("binutils", "setter-lost:fast", fmt.Sprintf("SetFastSymbolization(true) returned while another goroutine made the first use; afterwards the configuration is %s", got), nil, nil)
+			return
+		}
+		if what == "tools" && !strings.Contains(got, filepath.Join(other, "nm")) {
+			run.Violate("binutils", "setter-lost:tools", fmt.Sprintf("SetTools(nm:%s) returned while another goroutine made the first use; afterwards the configuration is %s", other, got), nil, nil)
+			return
+		}
+	}
+}
+
 func main() {
 	run = vlib.NewRun("C20")
 	n := run.N
@@ -269,6 +374,8 @@ func main() {
 	encodePart(n)
 	binutilsPart(n / 4)
 	a2lPart(n / 2)
+	tempRegistryPart(n/10 + 2)
+	lazyInitPart(n/10 + 4)
 	run.Sample(map[string]interface{}{"encode_rounds": n, "binutils_rounds": n / 4})
 	run.Finish("concurrent mixes: rounds of 2..7 goroutines each doing Write / WriteUncompressed / Copy on one shared 400-sample profile with the verif gate sleeping between preEncode and marshal, every output compared with the sequential bytes; 2 goroutines symbolizing through an ObjFile opened earlier and 3 opening fresh ObjFiles (first SourceLine, Symbols) while a sixth toggles fast symbolization and re-selects the tools, every answer compared with the sequential answers under the two configurations; 6 goroutines x 40 queries through one ObjFile backed by a scripted addr2line pipe, every answer must be the caller's own; all under the race detector; non-trivial = distinct operation mix")
 }
